@@ -253,11 +253,14 @@ func (g *genState) next(r *rand.Rand, cfg Config, allowReopen bool) []Op {
 			}
 			g.snap = Snap{idx, t}
 			ops := []Op{{K: "snap", Snap: &Snap{idx, t}}}
-			if r.Intn(4) > 0 {
+			switch r.Intn(6) {
+			case 0:
+			case 1:
 				ops = append(ops, Op{K: "sync"})
-			}
-			if r.Intn(3) > 0 {
-				ops = append(ops, Op{K: "release", Index: idx})
+			default:
+				// the node releases only after Sync (node/raft.go): everything that makes
+				// the marker valid (its commit) is flushed before older segments may go
+				ops = append(ops, Op{K: "sync"}, Op{K: "release", Index: idx})
 				g.released = idx
 			}
 			return ops
@@ -276,7 +279,7 @@ func (g *genState) next(r *rand.Rand, cfg Config, allowReopen bool) []Op {
 				continue
 			}
 			g.released = g.snap.Index
-			return []Op{{K: "release", Index: g.snap.Index}}
+			return []Op{{K: "sync"}, {K: "release", Index: g.snap.Index}}
 		case p < 93:
 			if !allowReopen {
 				continue
